@@ -63,6 +63,8 @@ pub open spec fn specs_ok(m: ZXMachine, s: ZXSpecs) -> bool {
 //@ item rustzx-core/src/zx/memory.rs const MEM_BLOCKS
 //@ item rustzx-core/src/zx/memory.rs enum Page
 //@ item rustzx-core/src/zx/memory.rs struct ZXMemory
+//@ item rustzx-core/src/zx/memory.rs enum RomType
+//@ item rustzx-core/src/zx/memory.rs enum RamType
 
 impl ZXMachine {
     /// assumed (lazy_static is outside the Verus subset); proved by Kani on the real tables
@@ -135,6 +137,16 @@ impl ZXMemory {
     pub open spec fn is_ram(&self, addr: u16) -> bool {
         self.cell(addr).0 is Ram
     }
+
+//@ fn rustzx-core/src/zx/memory.rs impl ZXMemory::new props C06
+//@ ret r
+//@ sig
+        // the power-on memory map of each machine
+        ensures r.wf(),
+            ram_type is K48 ==> r.ram@.len() == 3 * 16384 && r.map@ == seq![Page::Rom(0), Page::Ram(0), Page::Ram(1), Page::Ram(2)],
+            ram_type is K128 ==> r.ram@.len() == 8 * 16384 && r.map@ == seq![Page::Rom(0), Page::Ram(5), Page::Ram(2), Page::Ram(0)],
+            rom_type is K16 ==> r.rom@.len() == 16384, rom_type is K32 ==> r.rom@.len() == 32768,
+//@ end
 
 //@ fn rustzx-core/src/zx/memory.rs impl ZXMemory::paged_address props C06
 //@ ret r
